@@ -202,6 +202,8 @@ func (e *bigEnv) valueAt(v ssa.Value, at ssa.Instruction) *X {
 		for _, a := range args {
 			if isBigIntPtr(a.Type()) {
 				xs = append(xs, e.valueAt(a, last))
+			} else if isByteSlice(a.Type()) {
+				xs = append(xs, e.bytesOf(a, last))
 			} else {
 				xs = append(xs, e.plain(a, last))
 			}
@@ -371,6 +373,8 @@ func (e *bigEnv) plain(v ssa.Value, at ssa.Instruction) *X {
 				for _, a := range args {
 					if isBigIntPtr(a.Type()) {
 						xs = append(xs, e.valueAt(a, where))
+					} else if isByteSlice(a.Type()) {
+						xs = append(xs, e.bytesOf(a, where))
 					} else {
 						xs = append(xs, e.plain(a, where))
 					}
